@@ -102,6 +102,10 @@ def serialize(cell: A5Cell) -> int:
     else:
         index = (5 * origin.id + segment_n) << 58
 
+    if 0 <= resolution < FIRST_HILBERT_RESOLUTION and S != 0:
+        # No Hilbert curve at these resolutions: the only position is 0
+        raise ValueError(f"S ({S}) is too large for resolution level {resolution}")
+
     if resolution >= FIRST_HILBERT_RESOLUTION:
         # Number of bits required for S Hilbert curve
         hilbert_levels = resolution - FIRST_HILBERT_RESOLUTION + 1
